@@ -485,9 +485,15 @@ struct Driver
 		std::vector<int>& m = arr[ref[k]];
 		int n = (int)m.size();
 		if (nrefs(ref[k]) > 1 && wouldGrow(k, 2 * n + 1)) { step(); return; }  // keep stratum A's rule here too
-		int w = c.rng.below(6), i = c.rng.below(n);
+		int w = c.rng.below(7), i = c.rng.below(n);
 		bool atcap = a.length() == a.cap();
 		switch (w) {
+		case 6:
+			c.op(vf::fmt("h%d.copy(h%d) (itself)", k, k));
+			c.count("self_copy");
+			a.copy(a);
+			verify("self-copy");
+			break;
 		case 5: {
 			int cnt = c.rng.range(1, n - i);
 			c.op(vf::fmt("h%d.append(&h%d[%d], %d)%s", k, k, i, cnt, atcap ? " (at capacity)" : ""));
